@@ -451,7 +451,7 @@ Theorem split_starter_abandoned_refuted :
             ~ all_done s.
 Proof.
   destruct split_cex as [s|] eqn:E; [|vm_compute in E; discriminate].
-  exists s. split; [apply reach_apply_all with (ls := split_cex_labels); exact E|].
+  exists s. split; [apply reach_apply_all with (ls := split_cex_labels); unfold split_cex in E; exact E|].
   vm_compute in E. inv E.
   split; [apply quiescentb_sound; vm_compute; reflexivity|].
   split; [intros [|[|j]] pr Hj Hp; [| |lia]; cbn in Hp; inv Hp; discriminate|].
